@@ -184,6 +184,39 @@ def isolation(F, rep):
     w2 = writers.get("resolve_global_variables", [])
     rep.ob("ISOLATION", "resolve_global_variables|own-file", bool(w2) and all(a == "file_or_lib" for _, a in w2),
            "resolve_global_variables only modifies the table of the importing file (%s)" % w2)
+    # every module's table stays reachable for as long as anything is resolved: a table that is taken out (remove / take /
+    # clear) is unreachable for the reads made until it is put back - `from geometry use scale` written in geometry.sy
+    # itself (a one-file cycle) reads the importing file's own table
+    for fn in F.fns_in(NR):
+        order = []
+        for x in nodes(fn_body(fn)):
+            if x.get("k") == "MethodCall" and _ns_field(x["recv"]):
+                order.append((x["m"], x))
+            elif x.get("k") == "Index" and _ns_field(x["e"]):
+                order.append(("[]", x))
+            elif x.get("k") == "MethodCall" and (callee(x) or "").startswith(R) and not _ns_field(x["recv"]):
+                order.append(("call", x))
+            elif x.get("k") == "Call" and (callee(x) or "").startswith("core::mem::") and any(_ns_field(a) for a in x["args"]):
+                order.append(("remove", x))
+        k = 0
+        for i, (m, x) in enumerate(order):
+            if m not in ("remove", "clear", "retain", "drain", "remove_entry"):
+                continue
+            k += 1
+            between = []
+            restored = False
+            for m2, y in order[i + 1:]:
+                if m2 == "insert":
+                    restored = True
+                    break
+                between.append((m2, line_of(y)))
+            ok = restored and not between
+            rep.ob("ISOLATION", "%s|table-taken-out#%d" % (last(fn["_path"]), k), ok,
+                   "a module's table is taken out of Resolver.namespaces and put back before anything reads the tables" if ok else
+                   "%s takes a module's table out of Resolver.namespaces (`%s`) and %s: a module that imports from itself "
+                   "(`from geometry use scale as factor` inside geometry.sy) no longer finds its own table - `No namespace named ..`"
+                   % (last(fn["_path"]), m, ("reads the tables before it is put back (%s)" % between[:3]) if restored else "never puts it back"),
+                   line_of(x))
     rep.ob("ISOLATION", "no-scan", not scanners, "no function iterates over all namespaces to find a name (%s)" % scanners)
     r = readers.get("resolve_global_variables", [])
     rep.ob("ISOLATION", "imports-read-named-file", all(a in ("file",) for m, a in r if m in ("get", "contains_key")) and bool(r),
@@ -327,6 +360,27 @@ def path_forms(F, rep):
         if c.get("k") == "MethodCall" and c["m"] == "starts_with" and peel(c["args"][0]).get("v") == "/":
             parent_ok = untrimmed(c["recv"]) and "root" in pp(i["t"]) and "parent()" in pp(i.get("e"))
     rep.ob("PATH-FORMS", "root-vs-relative", parent_ok, "a leading `/` selects the source root, otherwise the directory of the importing file", fn["sp"])
+    # .. and the two agree for the main file: a rooted import written in the main directory and a relative import of the same
+    # file must spell the same PathBuf (the loader's visited set and the resolver's tables are keyed by it), so the source
+    # root is the main path's parent() - the operation relative imports apply to the importing file - whenever it has one
+    tr = F.fn(P + "tree")
+    tb = fn_body(tr)
+    flt = Flow(tr, tb)
+    main_params = {b["hid"] for prm in tr["params"] for b in pat_bindings(prm["pat"]) if "Path" in prm["ty"]}
+    roots = []
+    for c_ in nodes(tb, "Call"):
+        if callee(c_) == P + "module" and len(c_["args"]) >= 3:
+            roots.append(c_["args"][2])
+    verdicts = []
+    for r_ in roots:
+        src = peel_clone(flt.trace(r_))
+        verdicts.append(_is_parent_of(src, main_params))
+    root_ok = bool(verdicts) and all(v is True for v in verdicts)
+    rep.ob("PATH-FORMS", "root|is-the-main-file's-directory", root_ok,
+           "the source root handed to every module() is `path.parent()` of the main file, replaced only when there is none" if root_ok else
+           "the source root handed to module() is not simply the main file's parent() (%s): rooted imports (`use /counter`) then spell "
+           "a file differently from relative imports of it (`use counter` in main.sy started as `sylt main.sy`), the loader "
+           "visits it twice and the program gets two copies of its globals" % [v for v in verdicts if v is not True], tr["sp"])
     # join(if path == "/" {"exports.sy"} else if ends_with("/") {"{}/exports.sy"} else {"{}.sy"})
     table = []
     for c in nodes(body, "MethodCall"):
@@ -423,3 +477,32 @@ def chained_namespace(F, rep, rule="ISOLATION"):
                "Resolver::%s looks the member of a qualified name up in a namespace that does not come from resolving its "
                "prefix (the current file's own): `a.b.x` finds the importing file's `b` instead of a's" % fname,
                bad[0] if bad else fn["sp"])
+
+
+def _is_parent_of(e, params):
+    """True when `e` is <param>.parent() with a replacement for the None case only; otherwise a description"""
+    e = peel_clone(e)
+    if not isinstance(e, dict):
+        return "unknown"
+    if e.get("k") == "MethodCall" and e["m"] in ("unwrap_or_else", "unwrap_or", "unwrap", "expect", "unwrap_or_default"):
+        r = peel_clone(e["recv"])
+        if r.get("k") == "MethodCall" and r["m"] == "parent" and peel_clone(r["recv"]).get("hid") in params:
+            return True
+        return "fallback applied to `%s`" % pp(r)[:60]
+    if e.get("k") == "Match":
+        scr = peel_clone(e["scrut"]) if "scrut" in e else peel_clone(e.get("e"))
+        if not (isinstance(scr, dict) and scr.get("k") == "MethodCall" and scr["m"] == "parent" and peel_clone(scr["recv"]).get("hid") in params):
+            return "match on `%s`" % pp(scr)[:60]
+        for a in e["arms"]:
+            from hir import pat_alternatives, pat_variant
+            for alt in pat_alternatives(a["pat"]):
+                v = pat_variant(alt) or ""
+                if v.endswith("Some"):
+                    bs = pat_bindings(alt)
+                    body = peel_clone(a["body"])
+                    if a.get("guard") is not None:
+                        return "the Some arm is guarded: some parents are replaced"
+                    if not (len(bs) == 1 and body.get("k") == "Path" and body.get("hid") == bs[0]["hid"]):
+                        return "the Some arm yields `%s`" % pp(body)[:60]
+        return True
+    return "`%s`" % pp(e)[:80]
